@@ -55,6 +55,7 @@ inductive Expr where
   | callm (recv : Expr) (m : String) (args : List Expr)   -- a method of an object: external `.m` with the receiver first
   | subscript (e : Expr) (k : Expr)
   | opaqueStr                                              -- an f-string: some text no decision may depend on
+  | isNone (e : Expr) (negated : Bool)                     -- `e is None` / `e is not None`
   | unsupported (what : String)
 deriving Repr, Inhabited
 
@@ -261,6 +262,12 @@ def evalExpr (strip : String → String) (ext : Ext) : Nat → Env → Expr → 
       | .raise c => .raise c
       | .stuck w => .stuck w
     | .opaqueStr => .ok (.str "<f-string>")
+    | .isNone e negated =>
+      match evalExpr strip ext fuel env e with
+      | .ok .none => .ok (.bool (!negated))
+      | .ok _ => .ok (.bool negated)
+      | .raise c => .raise c
+      | .stuck w => .stuck w
     | .unsupported w => .stuck ("unsupported expression " ++ w)
 
 def evalArgs (strip : String → String) (ext : Ext) : Nat → Env → List Expr → R (List Val)
